@@ -151,7 +151,14 @@ func (w *_nodeRepr) LookupByString(key string) (datamodel.Node, error) {
 		}
 		return reprNode(v), nil
 	case schema.UnionRepresentation_Keyed:
-		revKey := inboundMappedType(w.schemaType.(*schema.TypeUnion), stg, key)
+		typ := w.schemaType.(*schema.TypeUnion)
+		revKey := inboundMappedType(typ, stg, key)
+		for _, member := range typ.Members() {
+			if member.Name() == revKey && stg.GetDiscriminant(member) != key {
+				// The name of a member that is represented by another key.
+				return nil, datamodel.ErrNotExists{Segment: datamodel.PathSegmentOfString(key)}
+			}
+		}
 		v, err := (*_node)(w).LookupByString(revKey)
 		if err != nil {
 			return nil, err
@@ -988,6 +995,10 @@ func (w *_structAssemblerRepr) AssembleValue() datamodel.NodeAssembler {
 	case schema.StructRepresentation_Map:
 		key := w.curKey.val.String()
 		revKey := inboundMappedKey(w.schemaType, stg, key)
+		if field := w.schemaType.Field(revKey); field != nil && stg.GetFieldKey(*field) != key {
+			// The name of a field that is represented by another key.
+			return _errorAssembler{fmt.Errorf("bindnode: invalid key: %q is not a field in the representation of type %s", key, w.schemaType.Name())}
+		}
 		w.curKey.val.SetString(revKey)
 
 		valAsm := (*_structAssembler)(w).AssembleValue()
@@ -1252,6 +1263,17 @@ func (w *_unionAssemblerRepr) AssembleValue() datamodel.NodeAssembler {
 	case schema.UnionRepresentation_Keyed:
 		key := w.curKey.val.String()
 		revKey := inboundMappedType(w.schemaType, stg, key)
+		for _, member := range w.schemaType.Members() {
+			if member.Name() == revKey && stg.GetDiscriminant(member) != key {
+				// The name of a member that is represented by another key.
+				return _errorAssembler{
+					schema.ErrNotUnionStructure{
+						TypeName: w.schemaType.Name() + ".Repr",
+						Detail:   fmt.Sprintf("no member with discriminant %q", key),
+					},
+				}
+			}
+		}
 		w.curKey.val.SetString(revKey)
 
 		valAsm := (*_unionAssembler)(w).AssembleValue()
